@@ -82,10 +82,15 @@ def checkFirst (c : Cfg) (s : Scan) (start stop : Int) (ids : List Nat) (g : Nat
   -- every on-time row of the interval that has arrived is reported
   let s5 := if s.seen.all (fun r => !(r.onTime && !r.corrupt && r.grp == g && decide (start ≤ r.ts) && decide (r.ts < stop)) || ids.contains r.id)
             then s4 else fail s4 "on-time-row-missing-from-its-interval"
+  -- acceptance is all or nothing: a row that was reported in an earlier result (a late row kept for the pending interval,
+  -- or folded into a fired one) is in every later first firing that covers it
+  let s5b := if s.seen.all (fun r => !(!r.corrupt && r.grp == g && decide (start ≤ r.ts) && decide (r.ts < stop) &&
+                  s.firsts.any (fun f => f.2.2.contains r.id)) || ids.contains r.id)
+            then s5 else fail s5 "row-reported-before-missing-from-covering-interval"
   -- first firings are strictly increasing, hence no interval twice
   let s6 := match ((s.firsts.zip s.firstGrp).filter (fun p => p.2 == g)).getLast? with
-            | some ((ps, _, _), _) => if ps < start then s5 else fail s5 "intervals-not-increasing"
-            | none => s5
+            | some ((ps, _, _), _) => if ps < start then s5b else fail s5b "intervals-not-increasing"
+            | none => s5b
   -- never before the watermark passed the end
   let s7 := match wmOf c s with
             | some w => if stop ≤ w then s6 else fail s6 "fired-before-watermark"
